@@ -60,4 +60,14 @@ Complete == phase = "raise" => D = Infinity
 SelfQuery == (phase = "found" /\ s = t) => result = <<s>>
 \* the algorithm never extracts a node twice and g of a closed node is its true distance (+ offset)
 ClosedExact == \A c \in closed : g[c] = Dist(R, C, conn, s, c) + Manhattan(s, t)
+
+\* ---------------------------------------------------------------- termination
+\* every iteration that does not end the search closes one more cell, closed cells never re-open: the loop body runs at most
+\* R*C + 1 times.  Stated as a strictly decreasing measure (a safety property TLC checks on every transition) and, under weak
+\* fairness of the loop, as the liveness property that every query is answered.
+Measure == IF phase = "run" THEN 1 + (R * C - Cardinality(closed)) ELSE 0
+MeasureNat == Measure >= 0
+Terminates == [][Measure' < Measure]_avars
+FairSpec == Spec /\ WF_avars(Next)
+Answered == <>(phase \in {"found", "raise"})
 ==========================================================================
